@@ -25,7 +25,7 @@ use std::rc::Rc;
 
 const PROPERTY: &str = "C18";
 
-fn simulate_run(seed: u64, run: u64, stats: &mut Stats, crosscheck: bool) -> Option<(Script, Violation)> {
+fn simulate_run(seed: u64, run: u64, stats: &mut Stats, crosscheck: bool) -> (Script, Option<Violation>) {
     let mut rng = Rng::for_run(seed, tag("C18-run"), run);
     let sw = gen::draw_swarm(&mut rng);
     let (secs, nanos, offset) = gen::draw_start(&mut rng);
@@ -40,10 +40,12 @@ fn simulate_run(seed: u64, run: u64, stats: &mut Stats, crosscheck: bool) -> Opt
     log.write_i64(secs);
     let mut events: Vec<Ev> = Vec::new();
     let mut found = None;
+    let mut gst = gen::GenState::default();
+    exec::reset_formatters();
     for _ in 0..sw.n_events {
         if rng.below(100) < sw.op_share {
             let now = clk.borrow().peek();
-            let op = gen::gen_op(&mut rng, &sw, &now);
+            let op = gen::gen_op(&mut rng, &sw, &now, &mut gst);
             let cross = rng.chance(1, 4);
             events.push(Ev::Op(op.clone()));
             if let Some(v) = exec::exec_op(&op, events.len() - 1, &clk, stats, &mut log, &opts, cross, None) {
@@ -62,22 +64,51 @@ fn simulate_run(seed: u64, run: u64, stats: &mut Stats, crosscheck: bool) -> Opt
     clock::uninstall();
     stats.runs += 1;
     stats.batch_hash = stats.batch_hash.wrapping_add(pool::batch_mix(run, log.finish()));
-    found.map(|v| {
-        (
-            Script {
-                seed,
-                run,
-                start_secs: secs,
-                start_nanos: nanos,
-                start_offset: offset,
-                events,
-            },
-            v,
-        )
-    })
+    (
+        Script {
+            seed,
+            run,
+            start_secs: secs,
+            start_nanos: nanos,
+            start_offset: offset,
+            events,
+        },
+        found,
+    )
 }
 
-fn replay(path: &str) -> i32 {
+/// The history of one worker thread: the scripts of the `k` runs that the
+/// thread executed before `run`, followed by `run` itself, as one script.
+/// Used when a violation depends on state an earlier run left in the library.
+fn history_script(seed: u64, run: u64, workers: u64, k: u64) -> Script {
+    let mut st = Stats::default();
+    let first = run.saturating_sub(k * workers);
+    let mut idx = first;
+    let mut combined: Option<Script> = None;
+    // keep the residue class of `run`
+    while idx % workers != run % workers {
+        idx += 1;
+    }
+    while idx <= run {
+        let (s, _) = simulate_run(seed, idx, &mut st, false);
+        match combined.as_mut() {
+            None => combined = Some(s),
+            Some(c) => {
+                c.events.push(Ev::SetWall { secs: s.start_secs, nanos: s.start_nanos, kind: 0 });
+                c.events.push(Ev::Offset { secs: s.start_offset });
+                c.events.push(Ev::Leap { reads: 0 });
+                c.events.push(Ev::Stall { reads: 0 });
+                c.events.extend(s.events);
+            }
+        }
+        idx += workers;
+    }
+    let mut c = combined.expect("at least the run itself");
+    c.run = run;
+    c
+}
+
+fn replay(path: &str, expect_class: Option<&str>) -> i32 {
     let v = match simcore::evidence::read_json(std::path::Path::new(path)) {
         Ok(v) => v,
         Err(e) => {
@@ -101,11 +132,16 @@ fn replay(path: &str) -> i32 {
     let (viol, hash) = exec::run_script(&script, &mut st, &opts);
     println!("replay {}: {} events, log hash {:016x}", path, script.events.len(), hash);
     match viol {
-        Some(viol) => {
+        Some(viol) if expect_class.map(|c| c == viol.class).unwrap_or(true) => {
             let v = viol;
+            println!("failing-event-index {}", v.op_index);
             println!("reproduced: class={} {}", v.class, v.detail);
             println!("VIOLATION property={} replay={}", PROPERTY, path);
             EXIT_VIOLATION
+        }
+        Some(other) => {
+            println!("a violation of another class ({}) occurs, not the expected one", other.class);
+            EXIT_OK
         }
         None => {
             println!("no violation on this tree");
@@ -134,6 +170,7 @@ fn main() {
     let mut out = simcore::verif_root().join("evidence").join("C18.json");
     let mut replay_file: Option<String> = None;
     let mut no_confirm = false;
+    let mut expect_class: Option<String> = None;
     let mut i = 1;
     while i < args.len() {
         match args[i].as_str() {
@@ -158,6 +195,10 @@ fn main() {
                 replay_file = Some(args[i].clone());
             }
             "--no-confirm" => no_confirm = true,
+            "--expect-class" => {
+                i += 1;
+                expect_class = Some(args[i].clone());
+            }
             other => {
                 eprintln!("unknown argument {other}");
                 std::process::exit(EXIT_HARNESS);
@@ -167,7 +208,7 @@ fn main() {
     }
     exec::install_panic_hook();
     if let Some(f) = replay_file {
-        std::process::exit(replay(&f));
+        std::process::exit(replay(&f, expect_class.as_deref()));
     }
     if tier != "quick" && tier != "thorough" {
         eprintln!("unknown tier {tier}");
@@ -217,7 +258,7 @@ fn main() {
     let n_runs: u64 = runs_override.unwrap_or(if thorough { 2_000_000 } else { 150_000 });
     let mut total: Stats = if sweep_stats.violations.is_empty() {
         pool::run_parallel(n_runs, workers, |idx, acc: &mut Stats, cut: &Cutoff| {
-            if let Some((script, v)) = simulate_run(seed, idx, acc, crosscheck) {
+            if let (script, Some(v)) = simulate_run(seed, idx, acc, crosscheck) {
                 cut.lower_to(idx);
                 acc.violations.push((idx, script, v));
             }
@@ -236,6 +277,7 @@ fn main() {
     );
     use simcore::pool::Merge;
     let sweep_violations = sweep_stats.violations.clone();
+    let is_sweep_violation = !sweep_violations.is_empty();
     total.merge(sweep_stats);
     total.violations = if !sweep_violations.is_empty() {
         sweep_violations
@@ -247,13 +289,42 @@ fn main() {
     let mut exit = EXIT_OK;
     let mut violation_lines = Vec::new();
     let mut n_viol = 0;
-    if let Some((idx, script, v)) = total.violations.first().cloned() {
-        n_viol = 1;
+    for (idx, script, v) in total.violations.clone() {
         println!("original violation (run {}): class={} : {}", idx, v.class, v.detail);
+        let class = v.class;
+        // Does the run reproduce on its own in a fresh process? If it only
+        // fails after earlier runs of the same worker thread (hidden state in
+        // the library), prepend that history.
+        let mut base: Option<Script> = None;
+        if no_confirm || shrink::fails_in_fresh_process(&script, class).is_some() {
+            base = Some(script.clone());
+        } else if !is_sweep_violation {
+            for k in [1u64, 2, 4, 8, 16, 32, 64] {
+                let h = history_script(seed, idx, workers as u64, k);
+                if shrink::fails_in_fresh_process(&h, class).is_some() {
+                    println!("the run alone does not reproduce; it does after the {} preceding run(s) of its worker thread", k);
+                    base = Some(h);
+                    break;
+                }
+            }
+        }
+        let base = match base {
+            Some(b) => b,
+            None => {
+                eprintln!("harness error: violation of run {} did not reproduce in a fresh process", idx);
+                exit = EXIT_HARNESS;
+                continue;
+            }
+        };
         let min = if std::env::var_os("C18_NO_SHRINK").is_some() {
-            script.clone()
+            base.clone()
         } else {
-            shrink::shrink(script.clone(), v.class)
+            let quick_min = shrink::shrink(base.clone(), class, &shrink::fails_in_process, 4000);
+            if no_confirm || shrink::fails_in_fresh_process(&quick_min, class).is_some() {
+                quick_min
+            } else {
+                shrink::shrink(base.clone(), class, &shrink::fails_in_fresh_process, 400)
+            }
         };
         let mut st = Stats::default();
         let opts = ExecOpts {
@@ -262,15 +333,17 @@ fn main() {
             lean: false,
         };
         let (v_min, _) = exec::run_script(&min, &mut st, &opts);
-        let (final_script, final_v) = match v_min {
-            Some(vm) if vm.class == v.class => (min, vm),
-            _ => (script, v),
+        let final_v = match v_min {
+            Some(vm) if vm.class == class => vm,
+            _ => v.clone(),
         };
+        let final_script = min;
+        n_viol = 1;
         let dir = simcore::verif_root().join("replays");
         let path = dir.join(format!("C18-{}-{}.json", seed, idx));
         let body = json!({
             "property": PROPERTY,
-            "class": final_v.class,
+            "class": class,
             "detail": final_v.detail,
             "seed": seed,
             "run": idx,
@@ -280,24 +353,23 @@ fn main() {
             eprintln!("harness error: cannot write replay file: {e}");
             std::process::exit(EXIT_HARNESS);
         }
-        println!("violation class={} : {}", final_v.class, final_v.detail);
-        // confirm in a fresh process
+        println!("violation class={} : {}", class, final_v.detail);
+        // confirm the file that is reported, in a fresh process
         let confirmed = if no_confirm {
             true
         } else {
             let exe = std::env::current_exe().expect("current_exe");
-            let o = std::process::Command::new(exe)
+            std::process::Command::new(exe)
                 .arg("--replay")
                 .arg(&path)
-                .output();
-            match o {
-                Ok(o) => o.status.code() == Some(EXIT_VIOLATION),
-                Err(_) => false,
-            }
+                .output()
+                .map(|o| o.status.code() == Some(EXIT_VIOLATION))
+                .unwrap_or(false)
         };
         if confirmed {
             violation_lines.push(format!("VIOLATION property={} replay={}", PROPERTY, path.display()));
             exit = EXIT_VIOLATION;
+            break;
         } else {
             eprintln!("harness error: violation did not reproduce from {}", path.display());
             exit = EXIT_HARNESS;
